@@ -166,6 +166,30 @@ def obligations(tier):
     for normalize in (False, True):
         add("_cmtf_als:coupled_matrix_tensor_3d_factorization", f"normalize_factors={normalize}", cm_setup, lambda I, normalize=normalize: run_cm(I, normalize), cm_post(normalize),
             dict(normalize_factors=normalize), "both returned models represent the final iterate ∧ normalisation contract", side_nonzero=True)
+    # ---- SVD initialisation when the rank exceeds a mode size: the factor of that mode is padded with random columns to (n_k, R)
+    def pad_svd_stub(S):
+        inner = make_svd_stub(S, None)
+        def stub(matrix, n_eigenvecs=None, **kw):
+            if S.name == "sym" and bool(G.SInt.lift(matrix.shape[0]) < n_eigenvecs):
+                return inner(matrix, n_eigenvecs=matrix.shape[0], **kw)   # svd contract: at most min(shape) = rows singular triplets exist (rows < columns assumed below)
+            return inner(matrix, n_eigenvecs=n_eigenvecs, **kw)
+        return stub
+    for N in range(2, maxN + 1):
+        for nn in (False, True):
+            def setup(S, N=N):
+                n = dims(N)
+                return dict(_S=S, n=n, X=S.input("X", n), R=R)
+            def call(I, nn=nn):
+                S = I["_S"]
+                with stubbed(_cp, svd_interface=pad_svd_stub(S)):
+                    kt = _cp.initialize_cp(I["X"], I["R"], init="svd", non_negative=nn, random_state=0)
+                return dict(weights=kt.weights, factors=list(kt.factors))
+            def post(S, I, r):
+                return [("factor shapes are (n_k, R), also for the padded mode", [tuple(S.shape(f)) for f in r["factors"]], [(nk, I["R"]) for nk in S.shape(I["X"])]),
+                        ("weights have length R", tuple(S.shape(r["weights"])), (I["R"],))]
+            add("_cp:initialize_cp", f"N={N},init=svd,rank > size of mode 0,non_negative={nn}", setup, call, post, dict(order=N, init="svd", rank="exceeds mode 0", non_negative=nn),
+                "shapes of the SVD initialisation padded with random columns",
+                assumptions=lambda I: [I["n"][0] < I["R"]] + [I["R"] <= nk for nk in I["n"][1:]] + [I["n"][0] <= sprod(I["n"][1:])])
     # ====================================================================== Tucker / HOOI: orthonormal factors, core = projection, shapes (caps 0 and >= 1)
     def tk_setup(N):
         def setup(S):
